@@ -11,6 +11,7 @@ pub fn gen_opts(ctx: &Ctx) -> GenOpts {
   let mut o = GenOpts::default();
   o.cbor = false;
   o.eq_on_bool = !ctx.excl("eq_ne_non_text_numeric_target");
+  o.group_alias_bodies = !ctx.excl("group_rule_aliasing_a_group_rule");
   o.map_group_choices = !ctx.excl("json_map_group_choice");
   o.map_group_occ = !ctx.excl("json_map_group_occurrence");
   o.group_increments = !ctx.excl("json_group_rule_increment_in_map");
